@@ -313,6 +313,135 @@ func c03UnionDriver(maxCases int) func(c *explore.Chooser, k int) *c03Case {
 	}
 }
 
+
+// c03TwoParamDriver: generic unions and records with TWO type parameters, instantiated at two DIFFERENT types
+// (<int, string>), so that the order of type parameters is observable everywhere it is written: the interface,
+// each case struct, each constructor (also those whose payload mentions only one of the parameters, or the
+// later one only), the record struct.  Payload / field menu: none, T, E, T*E, E*T, []E, int.
+func c03TwoParamDriver(maxCases int) func(c *explore.Chooser, k int) *c03Case {
+	type pl struct{ fo, goT, foVal, goVal, show, want string }
+	menu := []pl{
+		{},
+		{"T", "int", "7", "7", "fmt.Sprint(%s)", "7"},
+		{"E", "string", `"e"`, `"e"`, "fmt.Sprint(%s)", "e"},
+		{"T*E", "frt.Tuple2[int, string]", `(1, "a")`, `frt.NewTuple2(1, "a")`, "fmt.Sprintf(\"%v %v\", %s.E0, %s.E1)", "1 a"},
+		{"E*T", "frt.Tuple2[string, int]", `("a", 1)`, `frt.NewTuple2("a", 1)`, "fmt.Sprintf(\"%v %v\", %s.E0, %s.E1)", "a 1"},
+		{"[]E", "[]string", `["x"; "y"]`, `[]string{"x", "y"}`, "fmt.Sprint(%s)", "[x y]"},
+		{"int", "int", "3", "3", "fmt.Sprint(%s)", "3"},
+	}
+	showOf := func(p pl, v string) string { return strings.ReplaceAll(p.show, "%s", v) }
+	return func(c *explore.Chooser, k int) *c03Case {
+		record := c.Bool()
+		n := 1 + c.Choose(maxCases)
+		var ps []pl
+		usesT, usesE := false, false
+		for i := 0; i < n; i++ {
+			lo := 0
+			if record {
+				lo = 1
+			}
+			p := menu[lo+c.Choose(len(menu)-lo)]
+			ps = append(ps, p)
+			usesT = usesT || strings.Contains(p.fo, "T")
+			usesE = usesE || strings.Contains(p.fo, "E")
+		}
+		if !usesT || !usesE {
+			c.Skip("both type parameters must occur")
+		}
+		var fo, cl strings.Builder
+		cs := &c03Case{kind: "two-param-union"}
+		const inst = "[int, string]"
+		if record {
+			cs.kind = "two-param-record"
+			name := fmt.Sprintf("Rq%d", k)
+			fmt.Fprintf(&fo, "type %s<T, E> = {", name)
+			for i, p := range ps {
+				if i > 0 {
+					fo.WriteString("; ")
+				}
+				fmt.Fprintf(&fo, "F%d_%d: %s", i, k, p.fo)
+			}
+			fo.WriteString("}\n\n")
+			// a Folang producer and a Folang consumer of the first field
+			fmt.Fprintf(&fo, "let mkq%d () : %s<int, string> =\n  {", k, name)
+			for i, p := range ps {
+				if i > 0 {
+					fo.WriteString("; ")
+				}
+				fmt.Fprintf(&fo, "F%d_%d=%s", i, k, p.foVal)
+			}
+			fo.WriteString("}\n\n")
+			fmt.Fprintf(&fo, "let getq%d (r:%s<int, string>) =\n  r.F0_%d\n\n", k, name, k)
+			// client: positional literal with the documented instantiation, typed reads, both directions
+			var vals []string
+			for _, p := range ps {
+				vals = append(vals, p.goVal)
+			}
+			fmt.Fprintf(&cl, "\tv := %s%s{%s}\n", name, inst, strings.Join(vals, ", "))
+			for i, p := range ps {
+				fmt.Fprintf(&cl, "\tvar f%d %s = v.F%d_%d\n\tfmt.Println(%s)\n", i, p.goT, i, k, showOf(p, fmt.Sprintf("f%d", i)))
+				cs.want = append(cs.want, p.want)
+			}
+			fmt.Fprintf(&cl, "\tvar m %s%s = mkq%d()\n\tvar g %s = getq%d(m)\n\tfmt.Println(%s)\n", name, inst, k, ps[0].goT, k, showOf(ps[0], "g"))
+			cs.want = append(cs.want, ps[0].want)
+			fmt.Fprintf(&cl, "\tvar h %s = getq%d(v)\n\tfmt.Println(%s)\n", ps[0].goT, k, showOf(ps[0], "h"))
+			cs.want = append(cs.want, ps[0].want)
+			cs.fo, cs.client = fo.String(), cl.String()
+			return cs
+		}
+		name := fmt.Sprintf("Uq%d", k)
+		fmt.Fprintf(&fo, "type %s<T, E> =\n", name)
+		for i, p := range ps {
+			if p.fo == "" {
+				fmt.Fprintf(&fo, "  | Cq%d_%d\n", i, k)
+			} else {
+				fmt.Fprintf(&fo, "  | Cq%d_%d of %s\n", i, k, p.fo)
+			}
+		}
+		fmt.Fprintf(&fo, "\nlet tagq%d (u:%s<int, string>) =\n  match u with\n", k, name)
+		for i, p := range ps {
+			pat := fmt.Sprintf("Cq%d_%d", i, k)
+			if p.fo != "" {
+				pat += " _"
+			}
+			fmt.Fprintf(&fo, "  | %s -> %d\n", pat, i+1)
+		}
+		// Folang producers with explicit type arguments, one per case
+		for i, p := range ps {
+			if p.fo == "" {
+				fmt.Fprintf(&fo, "\nlet mkq%d_%d () =\n  Cq%d_%d<int, string> ()\n", i, k, i, k)
+			} else {
+				fmt.Fprintf(&fo, "\nlet mkq%d_%d () =\n  Cq%d_%d<int, string> %s\n", i, k, i, k, paren(p.foVal))
+			}
+		}
+		fo.WriteString("\n")
+		for i, p := range ps {
+			ctor := fmt.Sprintf("New_%s_Cq%d_%d", name, i, k)
+			if p.fo == "" {
+				fmt.Fprintf(&cl, "\tvar u%d %s%s = %s%s()\n", i, name, inst, ctor, inst)
+			} else {
+				fmt.Fprintf(&cl, "\tvar u%d %s%s = %s%s(%s)\n", i, name, inst, ctor, inst, p.goVal)
+			}
+			fmt.Fprintf(&cl, "\tswitch x := u%d.(type) {\n\tcase %s_Cq%d_%d%s:\n", i, name, i, k, inst)
+			if p.fo != "" {
+				fmt.Fprintf(&cl, "\t\tvar p %s = x.Value\n\t\tfmt.Println(\"case %d\", %s)\n", p.goT, i, showOf(p, "p"))
+				cs.want = append(cs.want, fmt.Sprintf("case %d %s", i, p.want))
+			} else {
+				fmt.Fprintf(&cl, "\t\t_ = x\n\t\tfmt.Println(\"case %d\")\n", i)
+				cs.want = append(cs.want, fmt.Sprintf("case %d", i))
+			}
+			fmt.Fprintf(&cl, "\tdefault:\n\t\tfmt.Println(\"other\")\n\t}\n")
+			fmt.Fprintf(&cl, "\tfmt.Println(tagq%d(u%d))\n", k, i)
+			cs.want = append(cs.want, fmt.Sprint(i+1))
+			// produced by Folang with explicit type arguments, consumed by Go
+			fmt.Fprintf(&cl, "\tvar m%d %s%s = mkq%d_%d()\n\t_, is%d := m%d.(%s_Cq%d_%d%s)\n\tfmt.Println(is%d, tagq%d(m%d))\n", i, name, inst, i, k, i, i, name, i, k, inst, i, k, i)
+			cs.want = append(cs.want, fmt.Sprintf("true %d", i+1))
+		}
+		cs.fo, cs.client = fo.String(), cl.String()
+		return cs
+	}
+}
+
 func paren(s string) string {
 	if strings.ContainsAny(s, " ") && !strings.HasPrefix(s, "(") && !strings.HasPrefix(s, "[") && !strings.HasPrefix(s, "{") && !strings.HasPrefix(s, "\"") {
 		return "(" + s + ")"
@@ -634,6 +763,7 @@ func checkC03(c *core.Ctx) {
 	}
 	collect(c03RecordDriver(rf))
 	collect(c03UnionDriver(uf))
+	collect(c03TwoParamDriver(uf))
 	collect(c03LetDriver(lp))
 	collect(c03ForeignDriver(fa))
 	c.Count(0, total.States, total.Transitions, 0)
